@@ -4,7 +4,11 @@ package tlcp
 
 //verif:twin dtlcp
 
-import "bytes"
+import (
+	"bytes"
+	"context"
+	"errors"
+)
 
 // C10 / C07 — the server's resumption decision (real checkForResumption, cipherSuiteOk, selectCipherSuite) for
 // an ARBITRARY ClientHello, configuration and cache content: a session is resumed only when the offered id is
@@ -93,4 +97,40 @@ func VerifHarness_C10_server_resumption_decision() {
 	// the lookup key is the hex form of the offered id (what createSessionState stores under)
 	verifAssert("C10.decision.lookupKeyLength", len(cache.key) == 64)
 	_ = bytes.Equal
+}
+
+// C12 — Handshake keeps reporting a failed handshake: the handshake function runs once, its error is stored
+// and returned by every later Handshake call, Read and Write fail with it and deliver nothing; a successful
+// handshake is not run again either.
+//
+//verif:harness props=C12 paths=200 reach=failed,succeeded
+func VerifHarness_C12_handshake_sticky() {
+	c := verifBareConn(&Config{}, verifSplitInt("role", 0, 1) == 1)
+	runs := 0
+	fail := verifSplitInt("handshakeFails", 0, 1) == 1
+	failure := errors.New("verif: handshake failed")
+	c.handshakeFn = func(ctx context.Context) error {
+		runs++
+		if fail {
+			return failure
+		}
+		verifMarkComplete(c)
+		return nil
+	}
+	e1 := c.Handshake()
+	e2 := c.Handshake()
+	verifAssert("C12.handshake.runsOnce", runs == 1)
+	if fail {
+		verifReach("failed")
+		verifAssert("C12.handshake.errorStored", e1 == failure && e2 == failure)
+		verifAssert("C12.handshake.notComplete", !c.handshakeComplete())
+		n, err := c.Read(make([]byte, 1))
+		verifAssert("C12.handshake.readFailsAfterFailedHandshake", n == 0 && err == failure)
+		n, err = c.Write([]byte{1})
+		verifAssert("C12.handshake.writeFailsAfterFailedHandshake", n == 0 && err == failure)
+		verifAssert("C12.handshake.stillOnce", runs == 1)
+	} else {
+		verifReach("succeeded")
+		verifAssert("C12.handshake.successReported", e1 == nil && e2 == nil && c.handshakeComplete())
+	}
 }
